@@ -1,5 +1,6 @@
 import TradingVerif.Props.C17
 #print axioms TV.contains_box
+#print axioms TV.contains_boxv
 #print axioms TV.contains_discrete
 #print axioms TV.contains_wrong_kind
 #print axioms TV.invalid_action_rejected
